@@ -6,6 +6,10 @@
 //!                        | `httpl` (as http, with an explicit Content-Length header)
 //!                        | `httpc` (as http, the body delivered as 1..3 data frames of unknown total length -- what a
 //!                          `Transfer-Encoding: chunked` / HTTP/2 request without Content-Length looks like to the service)
+//!                        | `httpk` (HTTP/1.1 over a real socket: a `Server` on 127.0.0.1:0 and ONE persistent raw-TCP
+//!                          keep-alive connection per config key, reused across the cases of the process; the message is
+//!                          the Content-Length body of a `POST /`; exactly one response is read; then a fixed barrier
+//!                          call is sent on the SAME connection)
 //!              batchcfg  = `d` (Disabled) | `u` (Unlimited) | `l<n>` (Limit(n)), optionally followed by `+r<N>`
 //!                          (max_response_body_size = N; default 10 MiB)
 //! output line: `s=<http-status|-> f=<frame-hex,...|-> l=<handler-log|-> a=<1|0>`
@@ -13,12 +17,14 @@
 //!                  connection from the moment the message was written until the connection was quiet again
 //!                  (barrier round-trips on the same connection + a silence window), in arrival order
 //!              l = `;`-joined `<method-hex>:<params-hex|->` in invocation order (user handlers only)
-//!              a = the connection still answers a later call (WS: the barrier call; HTTP: always 1)
+//!              a = the connection still answers a later call (WS and `httpk`: the barrier call on the same connection
+//!                  is answered with the barrier's result; 0 = closed / reset / timed out, the next case reconnects;
+//!                  socket-free HTTP: always 1)
 //!
 //! HTTP is driven socket-free through `ServerBuilder::to_service_builder().build(methods, stop).call(request)`
 //! (POST, content-type application/json, the message as one body frame).  WebSocket runs over 127.0.0.1:0 with a
 //! raw soketto client (text and binary frames); a dedicated reader task feeds an mpsc (receive is not cancel-safe).
-//! One server + one WS connection per batch config, reused across the cases of the process.
+//! One server + one WS connection (+ one `httpk` TCP connection) per batch config, reused across the cases of the process.
 //!
 //! Registry (the OCaml driver computes the same function of (method, params text)):
 //!   echo (sync) -> params | null            aecho (async) -> {"method":"aecho","params":<params|null>}
@@ -42,6 +48,7 @@ use jsonrpsee_core::traits::IdProvider;
 use jsonrpsee_server::{BatchRequestConfig, Methods, RpcModule, Server, ServerConfig, ServerHandle, StopHandle, stop_channel};
 use jsonrpsee_types::{ErrorObjectOwned, Params, SubscriptionId};
 use serde_json::value::RawValue;
+use tokio::io::{AsyncReadExt, AsyncWriteExt};
 use tokio::sync::mpsc;
 use tokio::time::{Instant, sleep, timeout};
 use tokio_util::compat::{Compat, TokioAsyncReadCompatExt};
@@ -186,11 +193,18 @@ struct WsConn {
 	reader: tokio::task::JoinHandle<()>,
 }
 
+/// The persistent HTTP/1.1 connection of transport `httpk`: the socket and the bytes read beyond the last response.
+struct HttpConn {
+	sock: tokio::net::TcpStream,
+	buf: Vec<u8>,
+}
+
 struct Srv {
 	cfg: ServerConfig,
 	addr: std::net::SocketAddr,
 	_handle: ServerHandle,
 	conn: Option<WsConn>,
+	hconn: Option<HttpConn>,
 }
 
 struct Engine {
@@ -262,6 +276,118 @@ async fn connect(addr: std::net::SocketAddr) -> Option<WsConn> {
 	Some(WsConn { sender, rx, reader })
 }
 
+
+async fn http_connect(addr: std::net::SocketAddr) -> Option<HttpConn> {
+	let sock = timeout(WAIT, tokio::net::TcpStream::connect(addr)).await.ok()?.ok()?;
+	sock.set_nodelay(true).ok()?;
+	Some(HttpConn { sock, buf: Vec::new() })
+}
+
+impl HttpConn {
+	/// The connection is known to be unusable before anything is written: the peer has closed or reset it, or bytes
+	/// nobody asked for are waiting on it (those are reported as `stale`).
+	fn dead_or_stale(&mut self) -> (bool, Vec<u8>) {
+		let mut stale = std::mem::take(&mut self.buf);
+		let mut chunk = [0u8; 4096];
+		loop {
+			match self.sock.try_read(&mut chunk) {
+				Ok(0) => return (true, stale),
+				Ok(n) => stale.extend_from_slice(&chunk[..n]),
+				Err(e) if e.kind() == std::io::ErrorKind::WouldBlock => return (!stale.is_empty(), stale),
+				Err(_) => return (true, stale),
+			}
+		}
+	}
+
+	/// More bytes into `buf`; false when the peer closed, the read failed or nothing arrived within `WAIT`.
+	async fn fill(&mut self) -> bool {
+		let mut chunk = [0u8; 16384];
+		match timeout(WAIT, self.sock.read(&mut chunk)).await {
+			Ok(Ok(n)) if n > 0 => {
+				self.buf.extend_from_slice(&chunk[..n]);
+				true
+			}
+			_ => false,
+		}
+	}
+
+	/// `POST / HTTP/1.1` with the message as Content-Length body; false when the bytes could not be written.
+	async fn post(&mut self, host: &str, body: &[u8]) -> bool {
+		let mut rq = format!("POST / HTTP/1.1\r\nHost: {host}\r\nContent-Type: application/json\r\nContent-Length: {}\r\n\r\n", body.len()).into_bytes();
+		rq.extend_from_slice(body);
+		matches!(timeout(WAIT, async { self.sock.write_all(&rq).await?; self.sock.flush().await }).await, Ok(Ok(())))
+	}
+
+	/// Exactly one response: status line, headers, body (Content-Length, or chunked); what follows stays in `buf`.
+	async fn response(&mut self) -> Option<(u16, Vec<u8>)> {
+		loop {
+			let head_end = loop {
+				if let Some(p) = self.buf.windows(4).position(|w| w == b"\r\n\r\n") {
+					break p + 4;
+				}
+				if self.buf.len() > (1 << 20) || !self.fill().await {
+					return None;
+				}
+			};
+			let head = String::from_utf8_lossy(&self.buf[..head_end]).to_string();
+			self.buf.drain(..head_end);
+			let mut lines = head.split("\r\n");
+			let status: u16 = lines.next()?.strip_prefix("HTTP/1.1 ")?.get(..3)?.parse().ok()?;
+			let mut len: Option<usize> = None;
+			let mut chunked = false;
+			for l in lines {
+				let Some((name, value)) = l.split_once(':') else { continue };
+				if name.eq_ignore_ascii_case("content-length") {
+					len = Some(value.trim().parse().ok()?);
+				} else if name.eq_ignore_ascii_case("transfer-encoding") && value.to_ascii_lowercase().contains("chunked") {
+					chunked = true;
+				}
+			}
+			if (100..200).contains(&status) {
+				continue; // interim response: the real one follows
+			}
+			let mut body = Vec::new();
+			if chunked {
+				loop {
+					let eol = loop {
+						if let Some(p) = self.buf.windows(2).position(|w| w == b"\r\n") {
+							break p;
+						}
+						if !self.fill().await {
+							return None;
+						}
+					};
+					let size_txt = String::from_utf8_lossy(&self.buf[..eol]).to_string();
+					let size = usize::from_str_radix(size_txt.split(';').next()?.trim(), 16).ok()?;
+					self.buf.drain(..eol + 2);
+					while self.buf.len() < size + 2 {
+						if !self.fill().await {
+							return None;
+						}
+					}
+					body.extend_from_slice(&self.buf[..size]);
+					self.buf.drain(..size + 2);
+					if size == 0 {
+						break;
+					}
+				}
+			} else {
+				// a response without either framing header would be delimited by the close of the connection:
+				// no such response exists in this server; it is reported as unreadable
+				let len = len?;
+				while self.buf.len() < len {
+					if !self.fill().await {
+						return None;
+					}
+				}
+				body.extend_from_slice(&self.buf[..len]);
+				self.buf.drain(..len);
+			}
+			return Some((status, body));
+		}
+	}
+}
+
 impl Engine {
 	async fn server(&mut self, key: &str) -> Option<&mut Srv> {
 		if !self.servers.contains_key(key) {
@@ -269,7 +395,7 @@ impl Engine {
 			let server = timeout(WAIT, Server::builder().set_config(cfg.clone()).build("127.0.0.1:0")).await.ok()?.ok()?;
 			let addr = server.local_addr().ok()?;
 			let handle = server.start(self.methods.clone());
-			self.servers.insert(key.to_string(), Srv { cfg, addr, _handle: handle, conn: None });
+			self.servers.insert(key.to_string(), Srv { cfg, addr, _handle: handle, conn: None, hconn: None });
 		}
 		self.servers.get_mut(key)
 	}
@@ -305,6 +431,68 @@ impl Engine {
 			sleep(Duration::from_millis(1)).await;
 		}
 		self.finish(Some(status), if body.is_empty() { vec![] } else { vec![body] }, true)
+	}
+
+	/// Transport `httpk`: the message and then the barrier call on ONE persistent HTTP/1.1 connection.
+	async fn httpk_case(&mut self, key: &str, msg: Vec<u8>) -> String {
+		let ctx = self.ctx.clone();
+		let bar = self.barrier.fetch_add(1000, Ordering::SeqCst) + 1;
+		let Some(srv) = self.server(key).await else { return "?no-server".into() };
+		let host = srv.addr.to_string();
+		let mut frames: Vec<Vec<u8>> = Vec::new();
+		if let Some(c) = srv.hconn.as_mut() {
+			let (dead, stale) = c.dead_or_stale();
+			if !stale.is_empty() {
+				frames.push([b"STALE:".to_vec(), stale].concat());
+			}
+			if dead {
+				srv.hconn = None;
+			}
+		}
+		if srv.hconn.is_none() {
+			srv.hconn = http_connect(srv.addr).await;
+		}
+		let Some(conn) = srv.hconn.as_mut() else { return "?no-connection".into() };
+		let mut status = None;
+		let mut alive = conn.post(&host, &msg).await;
+		if alive {
+			match conn.response().await {
+				Some((s, body)) => {
+					status = Some(s);
+					if !body.is_empty() {
+						frames.push(body);
+					}
+				}
+				None => alive = false,
+			}
+		}
+		// a handler still running after the response was produced would be a finding of its own
+		let t0 = Instant::now();
+		while ctx.inflight.load(Ordering::SeqCst) != 0 && t0.elapsed() < WAIT {
+			sleep(Duration::from_millis(1)).await;
+		}
+		if alive {
+			let bid = format!("__b{bar}");
+			let b = format!(r#"{{"jsonrpc":"2.0","id":"{bid}","method":"__barrier"}}"#);
+			alive = conn.post(&host, b.as_bytes()).await
+				&& match conn.response().await {
+					Some((200, body)) => match serde_json::from_slice::<serde_json::Value>(&body) {
+						// the barrier's result; under a `+r<N>` smaller than the barrier's own reply, the server's
+						// "response too big" (-32008) error for the barrier's id is its answer
+						Ok(v) => {
+							v.get("id").and_then(|i| i.as_str()) == Some(bid.as_str())
+								&& (v.get("result").and_then(|r| r.as_u64()) == Some(0)
+									|| v.get("error").and_then(|e| e.get("code")).and_then(|c| c.as_i64()) == Some(-32008))
+						}
+						Err(_) => false,
+					},
+					_ => false,
+				};
+		}
+		if !alive {
+			srv.hconn = None;
+		}
+		self.finish(status, frames, alive)
 	}
 
 	fn finish(&self, status: Option<u16>, frames: Vec<Vec<u8>>, alive: bool) -> String {
@@ -418,6 +606,7 @@ impl Engine {
 		let quiet = Duration::from_millis(parts.get(3).and_then(|q| q.parse().ok()).unwrap_or(20));
 		match parts[0] {
 			"http" | "httpl" | "httpc" => self.http_case(parts[1], msg, parts[0]).await,
+			"httpk" => self.httpk_case(parts[1], msg).await,
 			"ws" => self.ws_case(parts[1], msg, false, quiet).await,
 			"wsb" => self.ws_case(parts[1], msg, true, quiet).await,
 			_ => "?bad-transport".into(),
